@@ -14,6 +14,7 @@ fn api_entry(a: Api) -> &'static str {
         Api::StepRow => "ConvertUnit_stepwise_read_row",
         Api::StepSeq => "ConvertUnit_stepwise_read_sequence",
         Api::Sched(_) => "ConvertLineProgram_read_row/read_sequence_schedule",
+        Api::Reenc(_) => "ConvertUnit_stepwise_read_row_reencoded",
     }
 }
 
